@@ -90,6 +90,11 @@ def gen_space(space, negative_bcoh=False):
             gk = gk + "-unsorted"
         X = kinds[int(rng.integers(0, len(kinds)))]
         y, dk = data(rng, x, kind="ints" if rng.random() < 0.15 else None, base=BASE[X])
+        if rng.random() < 0.05:
+            # the function itself identically zero (g(r) = 0 below the first neighbour distance, an empty S(Q) block): the affine
+            # conversions still subtract / add their constants
+            y = np.zeros_like(y)
+            dk = "all-zero"
         if rng.random() < 0.3:
             # reduced function exactly zero at some points (tails decayed to the baseline, zero crossings on grid points)
             y = y.copy()
